@@ -18,7 +18,12 @@
      WF sc c0      the apply set names each object once; the cluster is a map;
                    UIDs are below the server's counter and pairwise distinct; an
                    existing inventory object lives in an existing (or tracked)
-                   namespace; the destroyer prunes.
+                   namespace; the destroyer prunes; no status delivery reports an
+                   object held by a finalizer (u_fin) as NotFound or with a UID
+                   other than the one it has in the cluster (such a delivery would
+                   be a lie of the status watcher: the API server accepts the DELETE
+                   of such an object, the object stays).  wf_b (Corr/CorrPipeline.v)
+                   is the same predicate as a boolean (C01_WF_decide).
      kf_free sc c0 the run does not show the KNOWN FINDING C01-invns-apply-failed
                    (known_findings.json; reproduced on the implementation): the
                    inventory namespace n, not tracked before the run, is created by
@@ -73,6 +78,10 @@ Proof. exact kf_free_destroy. Qed.
 Theorem C01_kf_free_decide : forall sc c0, kf_freeb sc c0 = true -> kf_free sc c0.
 Proof. exact kf_freeb_sound. Qed.
 
+(* WF is decidable: the boolean the harness / fuzzers evaluate *)
+Theorem C01_WF_decide : forall sc c0, wf_b sc c0 = true <-> WF sc c0.
+Proof. exact wf_b_spec. Qed.
+
 (* the known finding: without kf_free the statement is false (first apply, the
    inventory namespace 0 is in the apply set, its own apply is rejected) *)
 Theorem C01_invns_refuted : exists sc c0, WF sc c0 /\ mon_C01 sc c0 (run sc c0) = false.
@@ -106,8 +115,7 @@ Example C01_nonvacuous_first_apply :
   out_final (run ex_sc1 ex_c1) = ex_c2.
 Proof.
   split; [|split; [apply kf_freeb_sound; vm_compute; reflexivity|split; vm_compute; reflexivity]].
-  unfold WF. cbn. split; [|split; [constructor|split; [intros c []|split; [intros c c' []|split; discriminate]]]].
-  intros _. repeat constructor; cbn; intuition discriminate.
+  apply wf_b_spec. vm_compute. reflexivity.
 Qed.
 
 Example C01_nonvacuous_prune :
@@ -116,12 +124,61 @@ Example C01_nonvacuous_prune :
     [RNsCreate 0; RInvUpdate [0; 1; 2]; RCreate 2 false; RDelete 1 2%N PropBackground; RInvUpdate [0; 2]].
 Proof.
   split; [|split; [apply kf_freeb_sound; vm_compute; reflexivity|vm_compute; reflexivity]].
-  unfold WF. cbn. split; [|split; [|split; [|split; [|split; [|discriminate]]]]].
-  - intros _. repeat constructor; cbn; intuition discriminate.
-  - repeat constructor; cbn; intuition discriminate.
-  - intros c [<-|[<-|[]]]; reflexivity.
-  - intros c c' [<-|[<-|[]]] [<-|[<-|[]]]; cbn; intros E; try reflexivity; discriminate.
-  - intros n l [= <-] [= <-]. left. left. reflexivity.
+  apply wf_b_spec. vm_compute. reflexivity.
+Qed.
+
+(* ---- objects held by a finalizer ------------------------------------------------------------------
+   Object 1 carries a finalizer, object 2 does not; both are tracked and owned.  The destroyer deletes
+   both; the API server accepts both requests, object 2 disappears, object 1 is only marked as
+   terminating and stays, annotations and all. *)
+Definition fin_univ : list uinfo := [mkU KNs None None; mkUF KPlain None None true; mkU KPlain None None].
+Definition fin_c0 : cluster :=
+  mkCl [mkC 1 5%N OOurs false [] false 1 None; mkC 2 6%N OOurs false [] false 1 None] (Some [1; 2]) 9%N.
+Definition fin_opts (destroy ptimeout : bool) : opts :=
+  mkO destroy true PMustMatch DNone VSkipInvalid false false ptimeout false PropBackground false.
+Definition fin_sc (destroy ptimeout : bool) (ds : list sobs) (e : wend) : scenario :=
+  mkSc fin_univ None [] (fin_opts destroy ptimeout) (mkE [] [mkW ds e] CNever None).
+Definition fin_left : cluster := mkCl [mkC 1 5%N OOurs false [] false 1 None] (Some [1]) 9%N.
+
+(* destroy, the delete wait runs into its timeout with object 1 still terminating: the wait event is
+   Timeout, object 1 is RETAINED in the inventory and the inventory object is NOT deleted *)
+Example C01_nonvacuous_finalizer_destroy_timeout :
+  let sc := fin_sc true true [mkS 2 SNotFound false 0%N 0%Z; mkS 1 STerminating true 5%N 2%Z] WTimeout in
+  WF sc fin_c0 /\ kf_free sc fin_c0 /\
+  reqs_of (out_trace (run sc fin_c0)) = [RDelete 2 6%N PropBackground; RDelete 1 5%N PropBackground; RInvUpdate [1]] /\
+  In (IEv (EWait (GWait, 0) 1 WTimedOut)) (out_trace (run sc fin_c0)) /\
+  out_final (run sc fin_c0) = fin_left /\ mon_C01 sc fin_c0 (run sc fin_c0) = true.
+Proof.
+  cbv zeta. split; [apply wf_b_spec; vm_compute; reflexivity|].
+  split; [apply kf_freeb_sound; vm_compute; reflexivity|].
+  split; [vm_compute; reflexivity|]. split; [vm_compute; tauto|]. split; vm_compute; reflexivity.
+Qed.
+
+(* the same as a prune of an apply run (empty apply set), the status watcher reporting object 1 as Failed:
+   retained through the Failed reconcile status *)
+Example C01_nonvacuous_finalizer_prune_failed :
+  let sc := fin_sc false false [mkS 2 SNotFound false 0%N 0%Z; mkS 1 SFailed true 5%N 2%Z] WTimeout in
+  WF sc fin_c0 /\ kf_free sc fin_c0 /\
+  reqs_of (out_trace (run sc fin_c0)) = [RInvUpdate [1; 2]; RDelete 2 6%N PropBackground; RDelete 1 5%N PropBackground; RInvUpdate [1]] /\
+  out_final (run sc fin_c0) = fin_left.
+Proof.
+  cbv zeta. split; [apply wf_b_spec; vm_compute; reflexivity|].
+  split; [apply kf_freeb_sound; vm_compute; reflexivity|]. split; vm_compute; reflexivity.
+Qed.
+
+(* no timeout configured, or the caller cancels while object 1 terminates: the wait never completes, the run
+   ends with the error event BEFORE the inventory-set task, the stored inventory is untouched.  (These are
+   the only ways a lingering object can still be reconcile-Pending when its wait task ends; the
+   inventory-set task, which would drop a Pending successful delete, is then never reached.) *)
+Example C01_nonvacuous_finalizer_no_timeout :
+  let sc := fin_sc true false [mkS 2 SNotFound false 0%N 0%Z; mkS 1 STerminating true 5%N 2%Z] WTimeout in
+  WF sc fin_c0 /\
+  reqs_of (out_trace (run sc fin_c0)) = [RDelete 2 6%N PropBackground; RDelete 1 5%N PropBackground] /\
+  ~ In (IEv (EStarted (GInvSet, 0))) (out_trace (run sc fin_c0)) /\
+  out_final (run sc fin_c0) = mkCl [mkC 1 5%N OOurs false [] false 1 None] (Some [1; 2]) 9%N.
+Proof.
+  cbv zeta. split; [apply wf_b_spec; vm_compute; reflexivity|]. split; [vm_compute; reflexivity|].
+  split; [vm_compute; intuition discriminate|vm_compute; reflexivity].
 Qed.
 
 (* ---- every clause of WF is needed: dropping it admits a run of the model that
@@ -167,6 +224,20 @@ Example C01_WF_needed_destroy_prunes :
          (mkCl [nx_obj 1 5%N] (Some [1]) 9%N).
 Proof. split; vm_compute; reflexivity. Qed.
 
+(* 7: a status watcher that lies about a finalizer-held object.  (a) it reports the lingering object 1 as
+   NotFound: the delete wait succeeds, the destroy counts as successful, the inventory object is deleted
+   although object 1 is live and annotated; (b) it reports object 1 with a foreign UID ("replaced"): same.
+   All other clauses hold (the scenario without its deliveries satisfies wf_b). *)
+Definition nx_bad7 (sc : scenario) (c0 : cluster) : Prop :=
+  wf_b (mkSc (sc_univ sc) (sc_inv_ns sc) (sc_local sc) (sc_opts sc) (mkE [] [] CNever None)) c0 = true /\
+  wf_fin_b sc c0 = false /\ kf_freeb sc c0 = true /\ mon_C01 sc c0 (run sc c0) = false.
+Example C01_WF_needed_no_notfound_for_finalizer :
+  nx_bad7 (fin_sc true true [mkS 2 SNotFound false 0%N 0%Z; mkS 1 SNotFound false 0%N 0%Z] WTimeout) fin_c0.
+Proof. repeat split; vm_compute; reflexivity. Qed.
+Example C01_WF_needed_no_foreign_uid_for_finalizer :
+  nx_bad7 (fin_sc true true [mkS 2 SNotFound false 0%N 0%Z; mkS 1 SCurrent true 77%N 2%Z] WTimeout) fin_c0.
+Proof. repeat split; vm_compute; reflexivity. Qed.
+
 Print Assumptions C01_no_orphans_partial.
 Print Assumptions C01_inventory_deleted_only_when_empty_partial.
 Print Assumptions C01_monitor_partial.
@@ -176,3 +247,4 @@ Print Assumptions C01_kf_free_inventory_set_not_reached.
 Print Assumptions C01_kf_free_destroy.
 Print Assumptions C01_kf_free_decide.
 Print Assumptions C01_invns_refuted.
+Print Assumptions C01_WF_decide.
